@@ -2,6 +2,7 @@
 //! and the internal `vcheck worker ...` used for sharding cases over processes
 //! (default-feature stakker allows one Stakker per process thread).
 
+mod matrix;
 mod props;
 
 use proptest::prelude::*;
@@ -18,7 +19,7 @@ use vcore::{run_engine, Opts};
 
 pub const VERIF: &str = "/verif";
 
-fn hex(b: &[u8]) -> String {
+pub fn hex(b: &[u8]) -> String {
     let mut s = String::with_capacity(b.len() * 2);
     for x in b {
         s.push_str(&format!("{:02x}", x));
@@ -26,7 +27,7 @@ fn hex(b: &[u8]) -> String {
     s
 }
 
-fn unhex(s: &str) -> Vec<u8> {
+pub fn unhex(s: &str) -> Vec<u8> {
     // first line only: the in-flight file is overwritten in place
     let s = s.lines().next().unwrap_or("").trim();
     (0..s.len() / 2)
@@ -34,7 +35,7 @@ fn unhex(s: &str) -> Vec<u8> {
         .collect()
 }
 
-fn seed() -> u64 {
+pub fn seed() -> u64 {
     std::env::var("VERIF_SEED")
         .ok()
         .and_then(|s| s.parse::<u64>().ok())
@@ -63,6 +64,7 @@ fn main() {
         }
         "worker" => worker(&args[2..]),
         "sweep" => props::sweep_worker(&args[2..]),
+        "matrix-worker" => matrix::worker(&args[2..]),
         "replay" => replay_file(Path::new(&args[2]), true),
         "replay-bytes" => replay_bytes(&args[2..]),
         "list" => {
@@ -113,6 +115,7 @@ fn worker(a: &[String]) -> i32 {
         focus: focus.clone(),
         size,
         strict: false,
+        matrix: false,
     };
     let st = RefCell::new(WState {
         evals: 0,
@@ -248,6 +251,7 @@ fn write_replay(
         focus: focus.to_string(),
         size,
         strict: false,
+        matrix: false,
     };
     o.trace = true;
     let rep = run_engine(engine, bytes, &o);
@@ -305,6 +309,7 @@ fn replay_file(path: &Path, verbose: bool) -> i32 {
         focus: v["focus"].as_str().unwrap_or("").to_string(),
         size: v["size"].as_u64().unwrap_or(0) as u32,
         strict: v["strict"].as_bool().unwrap_or(false),
+        matrix: v["matrix"].as_bool().unwrap_or(false),
     };
     let bytes = match v.get("scenario").and_then(|x| x.as_str()) {
         Some(name) => name.as_bytes().to_vec(),
@@ -338,6 +343,7 @@ fn replay_bytes(a: &[String]) -> i32 {
         focus: a[2].clone(),
         size: a[3].parse().unwrap(),
         strict: false,
+        matrix: false,
     };
     let bytes = unhex(&fs::read_to_string(&a[4]).unwrap());
     let rep = run_engine(&a[0], &bytes, &opts);
